@@ -89,7 +89,7 @@ def run(tier, seed, model_ok):
             if stale:
                 for p in (p1, p2):
                     if os.path.isdir(os.path.dirname(p)) and not os.path.isdir(p) and p != srcp:
-                        open(p, 'w').write('STALE ' + os.path.basename(p))
+                        open(p, 'w').write('STALE ' + os.path.basename(p) + '\n' + 'x' * rng.choice([0, 5000, 200000]))   # often longer than what will be written: a writer that does not truncate shows
             args = ['-s', name] + (['-o', o] if o else []) + (['-e', e] if e else []) + (['-v'] if verbose else [])
             scen.append(dict(idx=idx, sk=sk, name=name, o=o, e=e, work=work, home=home, srcp=srcp, p1=p1, p2=p2, stale=stale, args=args, verbose=verbose))
             dist['source ' + sk] += 1; dist['-o ' + str(o)] += 1; dist['-e ' + str(e)] += 1
